@@ -1943,6 +1943,13 @@ void propLean(vh::PropLog& log, std::map<std::string, long>& st, vh::Rng& r, int
         g.save(file, false, {}, unitSys(0));
         EclIO::EGrid eg(file);
         const double scale = std::fabs(xs[nx] * std::max(fx, 1.0)) + std::fabs(ys[ny] * std::max(fy, 1.0)) + (std::fabs(sx) + std::fabs(sy)) * H + z0 + H;
+        // Single precision of the file: every COORD/ZCORN value is off by up to half a float ulp (6e-8 relative);
+        // a depth error dz moves a corner by slope * dz along the pillar, an error of the pillar's end depths by
+        // |lean| * dz / H = slope * dz as well.  (A float-path tolerance of the comparison with the file reader only.)
+        double slope = 0.0;
+        for (double x : { xs[0], xs[nx] }) for (double y : { ys[0], ys[ny] })
+            slope = std::max(slope, (std::fabs(x * (fx - 1.0) + sx * H) + std::fabs(y * (fy - 1.0) + sy * H)) / H);
+        const double tolz = 1.3e-7 * (z0 + H), tolxy = 1.3e-7 * scale + 4.0 * slope * tolz;
         for (int k = 0; k < nz && ok; ++k) for (int j = 0; j < ny && ok; ++j) for (int i = 0; i < nx && ok; ++i) {
             const std::string cell = " cell (" + dims3(i, j, k) + ")";
             const double za = zs[k], zb = zs[k + 1], ta = (za - z0) / H, tb = (zb - z0) / H;
@@ -1959,7 +1966,7 @@ void propLean(vh::PropLog& log, std::map<std::string, long>& st, vh::Rng& r, int
                 const double z = (c >> 2) ? zb : za, x = px(xs[i + (c & 1)], z), y = py(ys[j + ((c >> 1) & 1)], z);
                 cx += x / 8; cy += y / 8;
                 if (!close(X[c], x, 0, 1e-12 * scale) || !close(Y[c], y, 0, 1e-12 * scale) || !close(Z[c], z, 0, 1e-12 * scale)) { ok = false; why = "corner " + std::to_string(c) + " = (" + num(X[c]) + ", " + num(Y[c]) + ", " + num(Z[c]) + "), construction (" + num(x) + ", " + num(y) + ", " + num(z) + ")" + cell; }
-                else if (!close(X[c], EX[c], 0, 4e-7 * scale) || !close(Y[c], EY[c], 0, 4e-7 * scale) || !close(Z[c], EZ[c], 0, 4e-7 * scale)) { ok = false; why = "corner " + std::to_string(c) + ": grid (" + num(X[c]) + ", " + num(Y[c]) + ", " + num(Z[c]) + "), EclIO::EGrid of the saved file (" + num(EX[c]) + ", " + num(EY[c]) + ", " + num(EZ[c]) + ")" + cell; }
+                else if (!close(X[c], EX[c], 0, tolxy) || !close(Y[c], EY[c], 0, tolxy) || !close(Z[c], EZ[c], 0, tolz)) { ok = false; why = "corner " + std::to_string(c) + ": grid (" + num(X[c]) + ", " + num(Y[c]) + ", " + num(Z[c]) + "), EclIO::EGrid of the saved file (" + num(EX[c]) + ", " + num(EY[c]) + ", " + num(EZ[c]) + ")" + cell; }
                 const auto q = g.getCornerPos(i, j, k, c);
                 if (ok && (!sameBits(q[0], X[c]) || !sameBits(q[1], Y[c]) || !sameBits(q[2], Z[c]))) { ok = false; why = "getCornerPos != getCellCorners" + cell; }
             }
@@ -1974,7 +1981,8 @@ void propLean(vh::PropLog& log, std::map<std::string, long>& st, vh::Rng& r, int
         if (ok) {
             const EclipseGrid h(file);
             for (size_t gi = 0; gi < g.getCartesianSize() && ok; ++gi) {
-                const double rel = 4e-6 * scale / std::min({ g.getCellDims(gi)[0], g.getCellDims(gi)[1], g.getCellDims(gi)[2] });
+                const auto dm = g.getCellDims(gi);
+                const double rel = 2.0 * (tolxy / dm[0] + tolxy / dm[1] + 2.0 * tolz / dm[2]);
                 if (!close(g.getCellVolume(gi), h.getCellVolume(gi), rel)) { ok = false; why = "volume after save/load " + num(g.getCellVolume(gi)) + " vs " + num(h.getCellVolume(gi)) + " cell " + std::to_string(gi); }
             }
         }
